@@ -638,6 +638,9 @@ func main() {
 			}
 		}
 	}
+	// thorough tier: every case goes through the implementation and the oracle, but only every 15th
+	// random case is also replayed on the Coq model (corpus and quick-tier volumes: all of them)
+	nRandom := 0
 	one := func(kind string, ops []Op, viaStyling, wellFormed bool) {
 		c.Obs.Evaluations++
 		outs := run(ops, viaStyling)
@@ -651,7 +654,12 @@ func main() {
 			c.Count("op:" + o.K)
 		}
 		rp := map[string]interface{}{"ops": ops, "styling": viaStyling, "wellformed": wellFormed}
-		sh, ix := c.Case(hx.Tuple(coqOps(ops), coqOuts(outs)), rp)
+		sh, ix := -1, 0
+		nRandom++
+		if !c.Thorough() || strings.HasPrefix(kind, "corpus") || kind == "replay" || nRandom%15 == 0 {
+			sh, ix = c.Case(hx.Tuple(coqOps(ops), coqOuts(outs)), rp)
+			c.Count("coq-replayed")
+		}
 		seenNT(ops)
 		c.Sample(map[string]interface{}{"ops": ops, "outputs": outs})
 		if wellFormed {
